@@ -868,8 +868,38 @@ pub fn replay_main(def: &CheckDef, path: &str) -> i32 {
         return 2;
     };
     let Some(replay) = &part.replay else {
-        eprintln!("harness error: part {part_name} has no replay function");
-        return 2;
+        // Enumeration parts are replayed by re-running the (deterministic) enumeration and
+        // looking for the saved input among the failures.
+        let want = v["input"].as_str().unwrap_or("").to_owned();
+        let tier = if v["tier"].as_str() == Some("thorough") { Tier::Thorough } else { Tier::Quick };
+        let seed = v["seed"].as_u64().unwrap_or(0);
+        let Some(def2) = crate::checks::get(def.id, tier) else { return 2 };
+        let part2 = def2.parts.iter().find(|p| p.name == part_name).unwrap();
+        for shard in 0..NSHARDS {
+            let mut ctx = Ctx::new(def.id, tier, seed, shard, NSHARDS);
+            ctx.replay = true;
+            for r in 0..part2.rounds {
+                ctx.begin_part(part2.name);
+                (part2.run)(&ctx, r);
+            }
+            let st = ctx.take_stats();
+            for x in &st.violations {
+                if x["input"].as_str() == Some(want.as_str()) {
+                    println!("VIOLATION property={} replay={}", def.id, path);
+                    println!("  msg={}", truncate(x["msg"].as_str().unwrap_or(""), 1000));
+                    println!("  input={}", truncate(&want, 1000));
+                    return 1;
+                }
+            }
+            for (sig, (_, ex)) in &st.known {
+                if *ex == truncate(&want, 300) {
+                    println!("KNOWN-FINDING: property={} signature={sig}", def.id);
+                    return 0;
+                }
+            }
+        }
+        println!("replay: the enumeration no longer fails on this input");
+        return 0;
     };
     let input = if let Some(ch) = v["choices"].as_array() {
         ReplayInput::Choices(ch.iter().map(|x| x.as_u64().unwrap_or(0) as u16).collect())
